@@ -790,7 +790,9 @@ pub fn supervise<P: Property>(p: &P, opts: &RunOpts) -> i32 {
     }
 
     // 3. workers
-    let total = p.cases(opts.tier);
+    // VERIF_FUZZ_ONLY=1: skip the proptest search (used to measure what the coverage-guided phase
+    // finds on its own)
+    let total = if std::env::var("VERIF_FUZZ_ONLY").is_ok() { 0 } else { p.cases(opts.tier) };
     let nworkers = p.workers().max(1) as u64;
     // up to a quarter of the workers explore one known-finding domain each (that finding's
     // generator features switched back on, its signatures tolerated there and only there);
